@@ -9,7 +9,17 @@
    xlsx_extractor.py:read_xlsx = vzb on the bytes, then openpyxl opens the same bytes itself,
    archive_extractor.py = a plain archive, outside the property).
 
-   An entry is [fs |-> uncompressed size, cs |-> compressed size, dir |-> is a directory entry].
+   An entry is [fs |-> uncompressed size, cs |-> compressed size, dir |-> is a directory entry,
+                ab |-> its metadata SAYS "directory"].
+   dir is a property of the entry's NAME only: a name ending in "/" (zipfile.ZipInfo.is_dir()); these are
+   the only members zipfile never decompresses.  Everything else an entry carries -- external_attr
+   (MS-DOS directory bit 0x10, Unix mode with S_IFDIR / S_IFLNK, read-only), create_system (DOS / Unix),
+   general-purpose flag bits, the compression method (stored / deflated / ...) -- is attacker-controlled
+   decoration that does not stop ZipFile.read() from inflating the member, so the verdict must not
+   depend on it.  The model keeps one representative bit of that decoration, `ab`, which no clause of
+   the declarative predicate reads; the theorem run with AttrBits = BOOLEAN proves that the loop does
+   not read it either, and the deviation "DirByAttr" (skip entries whose attributes say directory)
+   breaks the theorem.  The harnesses draw the real metadata independently of the name.
    Limits are  [maxEntries, maxSingle, maxTotal, trNum, trDen, erNum, erDen]; the two ratio limits
    are the rationals trNum/trDen (whole container) and erNum/erDen (one entry); "ratio > limit"
    is decided by exact integer cross-multiplication.
@@ -35,11 +45,12 @@ EXTENDS Naturals, Sequences, FiniteSets, TLC
 
 CONSTANTS Deviations,      \* subset of DeviationNames; {} = reference design
           FS, CS, MaxN,    \* lattice: file sizes, compressed sizes, max number of entries
+          AttrBits,        \* values of the metadata bit `ab`: {FALSE} (main lattice) or BOOLEAN
           LimitSets        \* set of limit records the lattice is crossed with
 
 LoopDeviations  == {"CountGe", "SingleGe", "EntryRatioGe", "TotalGe", "TotalRatioGe",
                     "DropCount", "DropSingle", "DropZeroCs", "DropEntryRatio", "DropTotal",
-                    "DropTotalRatio", "CountDirs", "EntryRatioSwapped", "TotalRatioSwapped"}
+                    "DropTotalRatio", "CountDirs", "EntryRatioSwapped", "TotalRatioSwapped", "DirByAttr"}
 ProtoDeviations == {"DirectConstruct", "ReadBeforeValidate", "ReturnRejected", "XlsxSkipsValidate",
                     "NoRestorePos"}
 DeviationNames  == LoopDeviations \cup ProtoDeviations
@@ -64,7 +75,8 @@ LS_Variants == { Lim(me, ms, mt, trn, 2, ern, 2) :
                    me \in 1..3, ms \in 3..5, mt \in 5..7, trn \in 3..5, ern \in 5..7 }
 
 (* ------------------------------------------------------------------ PART 1: declarative *)
-E(f, c, d) == [fs |-> f, cs |-> c, dir |-> d]
+E4(f, c, d, a) == [fs |-> f, cs |-> c, dir |-> d, ab |-> a]
+E(f, c, d) == E4(f, c, d, FALSE)
 
 Files(es) == { k \in DOMAIN es : ~es[k].dir }
 
@@ -124,7 +136,7 @@ VARIABLES objs,      \* sequence of container objects [d |-> bytes id, site |-> 
 protovars == <<objs, vb, held, okb, cpos, call>>
 vars == <<loopvars, protovars>>
 
-EntryDom == [fs : FS, cs : CS, dir : BOOLEAN]
+EntryDom == [fs : FS, cs : CS, dir : BOOLEAN, ab : AttrBits]
 Vectors  == UNION { [1..n -> EntryDom] : n \in 0..MaxN }
 
 Gt(a, b, flipped) == IF Dev(flipped) THEN a >= b ELSE a > b
@@ -159,7 +171,7 @@ LoopStep ==
                        THEN Gt(e.cs * L.erDen, L.erNum * e.fs, "EntryRatioGe")     \* compressed / uncompressed
                        ELSE Gt(e.fs * L.erDen, L.erNum * e.cs, "EntryRatioGe")
        IN
-       IF e.dir /\ ~Dev("CountDirs")                                   \* if _is_directory(info): continue
+       IF (e.dir \/ (Dev("DirByAttr") /\ e.ab)) /\ ~Dev("CountDirs")  \* if _is_directory(info): continue
        THEN i' = i + 1 /\ UNCHANGED <<es, L, pc, totU, totC, verdict, why>>
        ELSE IF ~Dev("DropSingle") /\ Gt(e.fs, L.maxSingle, "SingleGe")
        THEN Raise("Single") /\ UNCHANGED <<es, L, i, totU, totC>>
